@@ -404,6 +404,17 @@ fn enc_oracles(meta: &mut Meta, cls: &mut Classes, s: &str, r: &EncRun, desc: &s
             if let Err(w) = b64_shape_ok(t, *u, *p) {
                 meta.oracle_fail(&format!("{w} (url_safe={u}, padded={p})"), None, desc.clone());
             }
+            // canonical length: 4*ceil(n/3) with padding, ceil(4n/3) without
+            meta.oracle_checks += 1;
+            let n = s.len();
+            let want = if *p { n.div_ceil(3) * 4 } else { (4 * n).div_ceil(3) };
+            if t.len() != want {
+                meta.oracle_fail(
+                    &format!("b64_encode(url_safe={u}, padded={p}) of {n} bytes has length {} instead of the canonical {want}", t.len()),
+                    None,
+                    desc.clone(),
+                );
+            }
         }
     }
     for (name, r, slash) in [("urlencode", &r.url, true), ("urlencode_strict", &r.urls, false)] {
@@ -445,6 +456,183 @@ fn do_enc(sink: &mut Sink, meta: &mut Meta, cls: &mut Classes, tera: &Tera, s: &
         sink.push(g, desc, nontrivial, None, &[len_tag(s), a]);
     }
     nontrivial
+}
+
+// ---------------------------------------------------------------- family encrl (long inputs, run-length form)
+
+/// unit^reps ++ tail
+#[derive(Clone)]
+struct Compact {
+    unit: String,
+    reps: usize,
+    tail: String,
+}
+
+impl Compact {
+    fn expand(&self) -> String {
+        let mut s = self.unit.repeat(self.reps);
+        s.push_str(&self.tail);
+        s
+    }
+    /// A string of exactly `n` bytes: whole units, then whole chars of the unit, then 'x' filler.
+    fn of_len(unit: &str, n: usize) -> Compact {
+        let reps = n / unit.len();
+        let mut rem = n % unit.len();
+        let mut tail = String::new();
+        for c in unit.chars() {
+            if c.len_utf8() <= rem {
+                tail.push(c);
+                rem -= c.len_utf8();
+            } else {
+                break;
+            }
+        }
+        tail.push_str(&"x".repeat(rem));
+        Compact { unit: unit.to_string(), reps, tail }
+    }
+}
+
+/// Greedy run-length form with period `plen`: (block, count) segments whose expansion is `seq`.
+fn rl_compress(seq: &[u32], plen: usize) -> Vec<(Vec<u32>, usize)> {
+    let plen = plen.max(1);
+    let mut out = Vec::new();
+    let mut pos = 0;
+    while pos < seq.len() {
+        let l = plen.min(seq.len() - pos);
+        let block = &seq[pos..pos + l];
+        let mut count = 1;
+        while pos + (count + 1) * l <= seq.len() && &seq[pos + count * l..pos + (count + 1) * l] == block {
+            count += 1;
+        }
+        out.push((block.to_vec(), count));
+        pos += count * l;
+    }
+    out
+}
+
+fn gal_rl(segs: &[(Vec<u32>, usize)]) -> String {
+    let parts: Vec<String> = segs
+        .iter()
+        .map(|(b, n)| format!("({}, {}%N)", gal_nlist(b.iter().map(|x| *x as u64)), n))
+        .collect();
+    format!("[{}]", parts.join("; "))
+}
+
+fn gal_rl_str(s: &str, plen: usize) -> String {
+    let cps: Vec<u32> = s.chars().map(|c| c as u32).collect();
+    gal_rl(&rl_compress(&cps, plen))
+}
+
+fn summary(r: &Outcome<String>) -> serde_json::Value {
+    match r {
+        Outcome::Ok(t) => {
+            let n = t.chars().count();
+            let head: String = t.chars().take(40).collect();
+            let tail: String = t.chars().skip(n.saturating_sub(40)).collect();
+            let first_pad = t.find('=');
+            json!({"ok_len": t.len(), "head": head, "tail": tail, "first_'='_at": first_pad})
+        }
+        other => jstr(other),
+    }
+}
+
+fn enc_desc_compact(c: &Compact, n_bytes: usize, r: &EncRun) -> serde_json::Value {
+    json!({"family": "encrl",
+        "s_compact": {"unit": c.unit, "reps": c.reps, "tail": c.tail},
+        "s_is": "unit repeated `reps` times followed by tail", "byte_len": n_bytes,
+        "b64": r.b64.iter().map(summary).collect::<Vec<_>>(),
+        "b64dec": r.dec.iter().map(summary).collect::<Vec<_>>(),
+        "url": summary(&r.url), "urls": summary(&r.urls),
+        "order": "(url_safe, padded) = (f,f) (f,t) (t,f) (t,t)"})
+}
+
+/// The enc family on a long string: implementation + every oracle always; the model comparison
+/// (full texts, printed in run-length form) when a sink is given.
+fn do_enc_long(sink: Option<&mut Sink>, meta: &mut Meta, cls: &mut Classes, tera: &Tera, c: &Compact) {
+    let s = c.expand();
+    let r = run_enc(tera, &s);
+    let desc = enc_desc_compact(c, s.len(), &r);
+    enc_oracles(meta, cls, &s, &r, &desc);
+    if let Some(sink) = sink {
+        let ub = c.unit.len().max(1);
+        let uc = c.unit.chars().count().max(1);
+        // period of the percent-encoded text: the implementation's own text for one unit
+        let mut ctx = Context::new();
+        ctx.insert_value("s", Value::from(c.unit.as_str()));
+        let pl = |e: &str| match eval_str(tera, e, &ctx) {
+            Outcome::Ok(t) => t.len().max(1),
+            _ => 3 * ub,
+        };
+        let (pu, pus) = (pl("s | urlencode"), pl("s | urlencode_strict"));
+        let mut input = vec![(c.unit.chars().map(|x| x as u32).collect::<Vec<u32>>(), c.reps)];
+        if !c.tail.is_empty() {
+            input.push((c.tail.chars().map(|x| x as u32).collect(), 1));
+        }
+        let g = format!(
+            "{{| r_s := {}; r_b64 := {}; r_b64dec := {}; r_url := {}; r_urls := {} |}}",
+            gal_rl(&input),
+            gal_list(&r.b64.iter().map(|x| gal_res(x, |t| gal_rl_str(t, 4 * ub))).collect::<Vec<_>>()),
+            gal_list(&r.dec.iter().map(|x| gal_res(x, |t| gal_rl_str(t, uc))).collect::<Vec<_>>()),
+            gal_res(&r.url, |t| gal_rl_str(t, pu)),
+            gal_res(&r.urls, |t| gal_rl_str(t, pus)),
+        );
+        let a = if s.is_ascii() { "ascii" } else { "nonascii" };
+        let lt = match s.len() {
+            0..=99 => "bytes:<100",
+            100..=4095 => "bytes:100-4095",
+            4096..=16383 => "bytes:4096-16383",
+            16384..=65535 => "bytes:16384-65535",
+            _ => "bytes:65536+",
+        };
+        sink.push(g, desc, s.len() >= 3, None, &[lt, a]);
+    }
+}
+
+/// Sizes at which an encoder that works in blocks would cut its input.
+const BLOCKS: [usize; 9] = [3, 4, 57, 64, 76, 1024, 4096, 8192, 65536];
+const ASCII_UNIT: &str = "abcdefghijklmnopqrstuvw"; // 23 bytes: coprime to every block size
+const MULTI_UNIT: &str = "a\u{e9}\u{65e5}\u{1f600}~"; // 1+2+3+4+1 = 11 bytes
+
+fn lengths_around(ks: &[usize], d: i64, cap: usize) -> Vec<usize> {
+    let mut v = Vec::new();
+    for b in BLOCKS {
+        for k in ks {
+            for off in -d..=d {
+                let n = (b * k) as i64 + off;
+                if n >= 0 && (n as usize) <= cap {
+                    v.push(n as usize);
+                }
+            }
+        }
+    }
+    v.sort();
+    v.dedup();
+    v
+}
+
+// ---------------------------------------------------------------- '%' in the input of the percent-encoders
+
+/// Inputs that contain '%' followed by 0, 1 or 2 hex digits (either case), "%%", text that is
+/// already percent-encoded: percent-decoding the filter output must still give the input back
+/// (so an existing escape has to be escaped again).
+fn pct_strings() -> Vec<String> {
+    let grid: Vec<char> = "09afAFgG% \u{e9}".chars().collect();
+    let mut out: Vec<String> = vec!["%".into(), "%%".into(), "%%%".into()];
+    for x in &grid {
+        out.push(format!("%{x}"));
+        out.push(format!("{x}%"));
+        for y in &grid {
+            out.push(format!("%{x}{y}"));
+        }
+    }
+    for s in [
+        "a%41b", "100%25", "%25", "%2541", "%252541", "50% off", "%zz", "%4", "q%ffr", "%E2%82%AC", "%e2%82%ac",
+        "%C3%A9\u{e9}", "a%2Fb", "a%2fb/c", "discount:%10off", "%41%42", "%4%41", "%%41", "%41%", "%41%4", "x%0", "%00",
+        "%7E~%7e", "%2D-%2E.%5F_", "caf%C3%A9 cr%C3%A8me", "%F0%9F%98%80\u{1f600}", "a=%31&b=%32", "%u0041", "%x41", "% 41", "%+41",
+    ] {
+        out.push(s.to_string());
+    }
+    out
 }
 
 // ---------------------------------------------------------------- family dec
@@ -1319,6 +1507,14 @@ fn replay(path: &std::path::Path) {
     let s = case.get("s").and_then(|s| s.as_str());
     match (fam, s) {
         ("json", _) | ("jsontext", _) => println!("replay of json cases: see the recorded value"),
+        ("encrl", _) => {
+            let c = case.get("s_compact").expect("s_compact");
+            let g = |k: &str| c.get(k).and_then(|x| x.as_str()).unwrap_or("").to_string();
+            let c = Compact { unit: g("unit"), reps: c.get("reps").and_then(|x| x.as_u64()).unwrap_or(0) as usize, tail: g("tail") };
+            let s = c.expand();
+            let r = run_enc(&tera, &s);
+            println!("{}", serde_json::to_string_pretty(&enc_desc_compact(&c, s.len(), &r)).unwrap());
+        }
         ("enc", Some(s)) => {
             let r = run_enc(&tera, s);
             println!("{}", serde_json::to_string_pretty(&enc_desc(s, &r)).unwrap());
@@ -1354,6 +1550,8 @@ fn main() {
     let mut cls = Classes::default();
 
     let mut enc = Sink::new(&args.out, "enc", HDR, "check_enc");
+    let mut encrl = Sink::new(&args.out, "encrl", HDR, "check_encrl");
+    encrl.shard_cap_set(if thorough { 24 } else { 12 });
     let mut dec = Sink::new(&args.out, "dec", HDR, "check_dec");
     let mut slug = Sink::new(&args.out, "slug", HDR, "check_slug");
     let mut jc = JsonCtx {
@@ -1404,6 +1602,84 @@ fn main() {
             let s = rand_string_len(&mut rng, n);
             do_enc(&mut enc, &mut meta, &mut cls, &tera, &s, true);
         }
+    }
+
+    // --- '%' in the input; already-encoded text; the filters' own output fed back in
+    {
+        let pcts = pct_strings();
+        for s in &pcts {
+            do_enc(&mut enc, &mut meta, &mut cls, &tera, s, true);
+        }
+        let feed: Vec<&String> = if thorough { common.iter().chain(pcts.iter()).collect() } else { common.iter().collect() };
+        for s in feed {
+            let mut ctx = Context::new();
+            ctx.insert_value("s", Value::from(s.as_str()));
+            for f in ["s | urlencode", "s | urlencode_strict", "s | urlencode | urlencode_strict"] {
+                if let Outcome::Ok(t) = eval_str(&tera, f, &ctx) {
+                    do_enc(&mut enc, &mut meta, &mut cls, &tera, &t, true);
+                }
+            }
+        }
+        // "%" followed by every pair of ASCII bytes (exhaustive, oracle side), alone and embedded
+        let mut n = 0usize;
+        for a in 0..128u8 {
+            for b in 0..128u8 {
+                let s = format!("%{}{}", a as char, b as char);
+                do_enc(&mut enc, &mut meta, &mut cls, &tera, &s, false);
+                n += 1;
+                if (a as char).is_ascii_hexdigit() && (b as char).is_ascii_hexdigit() {
+                    let s = format!("k=%{}{}&%", a as char, b as char);
+                    do_enc(&mut enc, &mut meta, &mut cls, &tera, &s, false);
+                    n += 1;
+                }
+            }
+        }
+        only_eval += n;
+        only_nt += n;
+        meta.extra.insert("exhaustive_pct_plus_two_ascii_bytes".into(), json!(128 * 128));
+    }
+
+    // --- lengths around every plausible block size, in run-length form
+    {
+        // model + oracles
+        let (ks, cap_ascii, cap_multi): (&[usize], usize, usize) =
+            if thorough { (&[1, 2, 3, 5], 66_000, 41_000) } else { (&[1, 2], 66_000, 16_500) };
+        for n in lengths_around(ks, 3, cap_ascii) {
+            if !thorough && n > 17_000 && ![65535, 65536, 65537, 65539].contains(&n) {
+                continue;
+            }
+            do_enc_long(Some(&mut encrl), &mut meta, &mut cls, &tera, &Compact::of_len(ASCII_UNIT, n));
+            if n <= cap_multi {
+                do_enc_long(Some(&mut encrl), &mut meta, &mut cls, &tera, &Compact::of_len(MULTI_UNIT, n));
+            }
+        }
+        if thorough {
+            do_enc_long(Some(&mut encrl), &mut meta, &mut cls, &tera, &Compact::of_len(ASCII_UNIT, 100_000));
+            do_enc_long(Some(&mut encrl), &mut meta, &mut cls, &tera, &Compact { unit: "\u{e9}".into(), reps: 20_000, tail: "z".into() });
+        }
+        // oracles only: every length 0..=520, +-4 around k*block for k = 1..8, and a few 100 KB inputs
+        let mut lens: Vec<usize> = (0..=520).collect();
+        lens.extend(lengths_around(&[1, 2, 3, 4, 5, 6, 7, 8], 4, 270_000));
+        lens.extend([100_000, 102_400, 131_073, 200_001, 262_145]);
+        lens.sort();
+        lens.dedup();
+        let mut n = 0usize;
+        for l in &lens {
+            for unit in [ASCII_UNIT, MULTI_UNIT] {
+                do_enc_long(None, &mut meta, &mut cls, &tera, &Compact::of_len(unit, *l));
+                n += 1;
+            }
+        }
+        for unit in ["a", "\u{e9}", "\u{1f600}", "?>", "%41"] {
+            for reps in [4096, 4097, 5000, 40_000] {
+                do_enc_long(None, &mut meta, &mut cls, &tera, &Compact { unit: unit.into(), reps, tail: String::new() });
+                n += 1;
+            }
+        }
+        only_eval += n;
+        only_nt += n;
+        meta.extra.insert("block_size_lengths_oracle_only".into(), json!(n));
+        meta.extra.insert("block_sizes".into(), json!(BLOCKS));
     }
 
     // ------------------------------------------------------------ dec
@@ -1567,6 +1843,7 @@ fn main() {
     meta.extra.insert("json_key_collision_cases".into(), json!(jc.collisions));
     meta.extra.insert("error_classes".into(), json!(cls.0));
     meta.families.push(enc.finish());
+    meta.families.push(encrl.finish());
     meta.families.push(dec.finish());
     meta.families.push(jc.json.finish());
     meta.families.push(jc.jsontext.finish());
